@@ -216,6 +216,28 @@ def data_case(ctx, rng, idx):
                 return
 
 
+def _limits_exist(s, p):
+    """both band limits exist by the rank rule (average ranks for ties, as
+    the figures use), in exact arithmetic"""
+    from fractions import Fraction
+    s = np.asarray(s, dtype=float)
+    s = s[~np.isnan(s)]
+    n = len(s)
+    if n == 0:
+        return False
+    pf = Fraction(repr(round(float(p), 10)))
+    lo_thr, up_thr = (1 - pf) / 2, (1 + pf) / 2
+    order = np.sort(s)
+    has_lo = has_up = False
+    for v in np.unique(order):
+        first = int(np.searchsorted(order, v, side='left')) + 1
+        last = int(np.searchsorted(order, v, side='right'))
+        rank = Fraction(first + last, 2 * n)
+        has_lo = has_lo or rank <= lo_thr
+        has_up = has_up or rank >= up_thr
+    return has_lo and has_up
+
+
 def band_case(ctx, rng, idx):
     pname = ['PDPredictivePlot', 'PKPredictivePlot'][idx % 2]
     pk = pname.startswith('PK')
@@ -251,6 +273,14 @@ def band_case(ctx, rng, idx):
     if pk:
         rows.append({'ID': 1, 'Time': 0.0, 'Observable': np.nan,
                      'Value': np.nan, 'Dose': 2.0, 'Duration': 0.01})
+    nan_time_row = rng.random() < 0.2
+    if nan_time_row:
+        # a prediction row without a time belongs to no time point
+        r = {'ID': 1, 'Time': np.nan, 'Observable': 'conc', 'Value': 3.3}
+        if pk:
+            r['Dose'] = np.nan
+            r['Duration'] = np.nan
+        rows.append(r)
     df = pd.DataFrame(rows)
     if rng.random() < 0.5:
         df = df.iloc[rng.permutation(len(df))]
@@ -284,11 +314,27 @@ def band_case(ctx, rng, idx):
         p = float(str(t.text).split()[0])
         x = np.asarray(t.x, dtype=float)
         y = np.asarray(t.y, dtype=float)
+        # by the documented rank rule a limit exists at a time point iff a
+        # sample has rank fraction <= (1 - p) / 2 (lower) and one has
+        # >= (1 + p) / 2 (upper); decided here in exact arithmetic
+        exists = {}
+        for tt in times:
+            exists[float(tt)] = _limits_exist(samples[float(tt)], p)
+        # the filled polygon visits exactly the time points with both
+        # limits, once forwards and once backwards, without missing
+        # vertices (a NaN vertex splits the shaded area into two shapes)
+        want_t = np.array(sorted(tt for tt, e in exists.items() if e))
         n = len(x) // 2
-        if len(x) != 2 * n or n != n_times or not np.array_equal(
-                x[:n], x[n:][::-1]):
+        if np.any(np.isnan(x)) or np.any(np.isnan(y)):
+            ctx.violation('band_geometry',
+                          'band_polygon_with_missing_vertices:' + pname,
+                          {'x': x, 'y': y, 'prob': p}, feats)
+            return
+        if len(x) != 2 * n or not np.array_equal(x[:n], x[n:][::-1]) or \
+                not np.array_equal(np.sort(x[:n]), want_t):
             ctx.violation('band_geometry', 'band_times:' + pname,
-                          {'x': x, 'times': times}, feats)
+                          {'x': x, 'times with both limits': want_t,
+                           'prob': p}, feats)
             return
         # the filled polygon runs along the upper limits in time order and
         # back along the lower ones: only then is the shaded region the
